@@ -80,7 +80,7 @@ func genC03Program(r *R, ex map[string]bool) *Program {
 		KV{"bm", &Val{T: "bmap", M: []KV{{"true", &Val{T: "int", I: 1}}, {"false", &Val{T: "int", I: 0}}}}},
 		KV{"km", &Val{T: "kmap", M: []KV{{"zeta", str("Z")}, {"alpha", str("A")}, {"mid", str("M")}}}},
 	)
-	maps := []string{"m1", "m2", "mi", "p1.Meta", "nm", "nm.b", "si", "mx", "cs", "cs2", "fm", "bm", "km", "gm", "gp.Meta", "em"}
+	maps := []string{"m1", "m2", "mi", "p1.Meta", "nm", "nm.b", "si", "mx", "cs", "cs2", "fm", "bm", "km", "gm", "gp.Meta", "em", "nk"}
 	hashLit := func() string {
 		n := r.Range(2, 4)
 		keys := []string{"a", "b", "c", "d"}
